@@ -325,21 +325,29 @@ def r4_chebyshev(ctx):
     else:
         # second idiom: the (single-column) norm array is swept together with the rows: for (entry, row) in zip(norm.iter_mut(), A.outer_iter()) { *entry = ‖row‖ }
         zw = []
+
+        def unwrap_rows(x):
+            return x[2][0] if is_call(x, 'ArrayBase::outer_iter_mut', 'ArrayBase::rows_mut', 'ArrayBase::iter_mut') and x[2] else x
         for w in assigns(b, R):
             t = w.target
-            if t[0] == 'field' and t[2] == '0' and is_call(t[1], 'Iterator::next') and is_call(t[1][2][0], 'zip', 'Iterator::zip') and t[1][2][0][2][0] == norm:
-                zw.append(w)
+            # `*entry = ..` or `cell[0] = ..` where entry / cell is one component of the zipped item
+            if is_call(t, 'IndexMut::index_mut') and len(t[2]) == 2 and s(t[2][1]) in (('const', 0), ('agg', 'array', (('const', 0),))):
+                t = t[2][0]
+            if t[0] == 'field' and t[2] in ('0', '1') and is_call(t[1], 'Iterator::next') and is_call(t[1][2][0], 'zip', 'Iterator::zip'):
+                k = int(t[2])
+                if unwrap_rows(t[1][2][0][2][k]) == norm:
+                    zw.append((w, t, k))
         if len(zw) == 1:
-            w = zw[0]
-            it = w.target[1]
-            rows = it[2][0][2][1]
+            w, tgt_, k_ = zw[0]
+            it = tgt_[1]
+            rows = it[2][0][2][1 - k_]
             src_ok = is_call(rows, 'ArrayBase::outer_iter', 'ArrayBase::rows', 'ArrayBase::axis_iter') and rows[2][0] == SM and \
                 (not is_call(rows, 'ArrayBase::axis_iter') or s(rows[2][1]) == AX0)
             v = w.value
             val_ok = False
             if is_call(v, 'Float::sqrt', 'f64::sqrt') and is_call(v[2][0], 'ArrayBase::sum'):
                 m = v[2][0][2][0]
-                if is_call(m, 'ArrayBase::map', 'ArrayBase::mapv') and m[2][0] == ('field', it, '1') and m[2][1][0] == 'closure':
+                if is_call(m, 'ArrayBase::map', 'ArrayBase::mapv') and m[2][0] == ('field', it, str(1 - k_)) and m[2][1][0] == 'closure':
                     cb = ctx.facts.closure(m[2][1][1])
                     cr = [e for _, e in Resolver(cb).return_expr()] if cb is not None else []
                     if len(cr) == 1:
@@ -347,7 +355,7 @@ def r4_chebyshev(ctx):
                         arg = ('param', cb.arg_names()[-1])
                         val_ok = (is_call(e, 'Float::powi', 'f64::powi') and e[2][0] == arg and e[2][1] == ('const', 2)) or \
                             (is_call(e, 'Mul::mul') and e[2][0] == arg and e[2][1] == arg) or (e[0] == 'bin' and e[1] == 'Mul' and e[2] == arg and e[3] == arg)
-            lits = [l for l in literals(b, R, w.bb) if not (l[0] == 'is' and is_call(l[1], 'Iterator::next'))]
+            lits = [l for l in literals(b, R, w.bb) if not (l[0] == 'is' and is_call(l[1], 'Iterator::next')) and not (l[0] == 'true' and l[1][0] == 'bin' and l[1][1] == 'Lt')]
             good = src_ok and val_ok and not lits
             why = 'norm[i] is not the Euclidean norm of row i of A for every row (rows=%s value=%s unconditional=%s)' % (src_ok, val_ok, not lits)
     (ctx.ok if good else ctx.bad)(rule, q + '#norms', 'norm[i, 0] = sqrt(sum_j A[i, j]^2) for every row i' if good else why, b.span)
